@@ -2,7 +2,8 @@
 
 The tracker's response to ARBITRARY request sequences is proved in contracts/c20.py.  Here: the manager registers the folder of a
 context exactly once, asks for every file of a folder exactly once when the context is cleaned (UNREGISTER when forcing, MAYBE_UNLINK
-otherwise), and un-registers a folder only after having deleted it - so that its own requests are balanced.
+otherwise), and un-registers a folder only after having deleted it.  Balance ACROSS cleanings of one context does not hold: the obligation
+`own-reference-given-back-at-most-once` fails (recorded finding K34: a re-used Parallel object cleans the same context after every call).
 Shape-bounded: two concrete context ids; the number of files in a folder is unbounded (loop invariant over os.listdir).
 """
 import z3
@@ -39,6 +40,22 @@ def build():
 
     for kind in ("register", "unregister", "maybe_unlink"):
         p.models["trackermod." + kind] = req(kind)
+
+    # The manager holds ONE reference to each file it created (the REGISTER sent when the array was dumped); a balanced client gives it back
+    # once.  RELEASED_BEFORE(name): an earlier cleaning of this context already sent MAYBE_UNLINK for that file - which may still exist,
+    # kept alive by the reference of a worker (os.listdir is arbitrary).
+    RELEASED = z3.Function("RELEASED_BEFORE", z3.StringSort(), z3.BoolSort())
+    plain_maybe_unlink = p.models["trackermod.maybe_unlink"]
+
+    def maybe_unlink(interp, recv, args, kwargs):
+        if args[1] == "file" and isinstance(args[0], Opaque) and args[0].tag == "path":
+            fname = args[0].attrs["parts"][-1]
+            interp.ctx.check("%s/call.maybe_unlink.requires.own-reference-given-back-at-most-once" % interp.contract.qualname,
+                             z3.Not(RELEASED(ops.to_term(fname))),
+                             detail="the manager decrements a file whose reference it already gave back at the end of an earlier call of the same Parallel object (the file still exists: a worker holds it)")
+        return plain_maybe_unlink(interp, recv, args, kwargs)
+
+    p.models["trackermod.maybe_unlink"] = maybe_unlink
     p.models["os.getpid"] = lambda i, a, k: 4242
     p.models["Str.format"] = lambda i, r, a, k: Opaque("foldername", None, parts=tuple(a))
     p.models["os.path.join"] = lambda i, a, k: Opaque("path", None, parts=tuple(a))
